@@ -710,6 +710,9 @@ func ruleHistoricReaderMode(c *Ctx) {
 					verdict, why = "bad", "the mode is a constant containing ModeGCFlag"
 				} else if tv, ok := info.Types[arg]; ok && tv.Value != nil {
 					verdict, why = "ok", "constant mode without ModeGCFlag"
+				} else if f.DirectMentions(arg)["pkg/core/stateroot#mode"] {
+					// the module's own mode as it is: it carries the GC flag whenever RemoveUntraceableBlocks is on
+					verdict, why = "bad", "the module's mode is handed on without clearing ModeGCFlag"
 				}
 			}
 			// the state-root module's own readers open the very store the module writes: the mode has to be the
